@@ -844,7 +844,35 @@ impl<'a> Ctx<'a> {
         self.user_call(via, target);
     }
 
+    /// A deposit / withdrawal the indexer interface must refuse (hash of an existing block, wrong transaction
+    /// index): it is answered with an error and the ledger does not move (the reads that follow check that).
+    fn refused_bridge_op(&mut self) {
+        let raws = self.raw_tickers();
+        let pk = self.rng.below(PKS.len() as u64) as usize;
+        let raw = raws[self.rng.below(raws.len() as u64) as usize].to_string();
+        let existing = self.run.inst.rpc("eth_getBlockByNumber", json!(["latest", false])).ok().and_then(|b| b["hash"].as_str().map(Hx::from_hex));
+        let (hash, idx, why) = match (self.rng.below(2), existing) {
+            (0, Some(h)) => (h, Idx::Auto, "hash of an existing block"),
+            _ => (Hx::zero32(), Idx::Off(1 + self.rng.below(3) as i64), "wrong transaction index"),
+        };
+        let amt = U256::from(self.rng.range(1, 1000));
+        let amount = self.amount_string(amt);
+        let op = if self.rng.chance(1, 2) {
+            Op::Deposit { to_pkscript: PKS[pk].into(), ticker: raw.clone(), amount, ts: self.block_ts, hash, tx_idx: idx, insc_id: self.fresh("rd") }
+        } else {
+            Op::Withdraw { from_pkscript: PKS[pk].into(), ticker: raw.clone(), amount, ts: self.block_ts, hash, tx_idx: idx, insc_id: self.fresh("rw") }
+        };
+        let out = self.run.step(&op).clone();
+        self.h.txs += 1;
+        self.h.log.push(format!("refused bridge operation ({}) pk{} {:?} -> {}", why, pk, raw, out.status.class()));
+        self.count("refused_bridge_op");
+        if out.status.is_ok() { self.fail(format!("a deposit / withdrawal with the {} was accepted", why), json!({"op": format!("{:?}", op).chars().take(300).collect::<String>()})); }
+        let key = lower_bytes(raw.as_bytes());
+        self.touched.insert((key, self.pk_addr[pk]));
+    }
+
     fn gen_tx(&mut self) {
+        if self.rng.chance(1, 14) { self.refused_bridge_op(); return; }
         let raws = self.raw_tickers();
         let roll = self.rng.below(100);
         let few_tokens = self.rf.tokens.len() < 2;
